@@ -352,3 +352,33 @@ AGAIN_CLEAN_ABORT_CLEAN = _again(_p([
 AGAIN_INTERRUPT_THEN_CLEAN = _again(_p([_s("s0", [_t("t0", script=[_LOG]), _t("t1", script=[_LOG], rank=2), _t("t2", script=[_LOG], rank=3)])]),
                                     interrupt=["get", 2])
 AGAIN_CORPUS = [AGAIN_ABORT_SUITE_THEN_CLEAN, AGAIN_ABORT_ALL_THEN_FAILURE_THEN_CLEAN, AGAIN_CLEAN_ABORT_CLEAN, AGAIN_INTERRUPT_THEN_CLEAN]
+
+
+# ---- an exception raised while an attachment is being prepared, BEFORE the attachment file exists ---------------------------
+def _c1(project, n=1):
+    return _case(project, _cfg(n))
+
+
+def _blk_late(*script):
+    return {"a": "attachw", "write": "late", "script": list(script)}
+
+
+_SAVE_MISSING = {"a": "attachw", "via": "save_file", "script": [{"a": "raise", "kind": "exc"}]}
+_EXC = {"a": "raise", "kind": "exc"}
+# the content producer of a `with lcc.prepare_attachment(..)` block raises before the file is written: test body, then a log
+UNWRITTEN_BLOCK_RAISES_IN_BODY = _c1(_p([_s("s0", [_t("t0", script=[_LOG, _blk_late(_LOG, _EXC), _LOG]), _t("t1", script=[_LOG], rank=2)])]))
+# lcc.save_attachment_file on a source file that does not exist: test body / setup_suite hook / teardown_test hook / fixture / lcc.Thread
+SAVE_MISSING_IN_BODY = _c1(_p([_s("s0", [_t("t0", script=[_LOG, dict(_SAVE_MISSING), _LOG]), _t("t1", script=[_LOG], rank=2)])]))
+SAVE_MISSING_IN_SETUP_SUITE = _c1(_p([_s("s0", [_t("t0", script=[_LOG])], setup_suite={"params": [], "script": [dict(_SAVE_MISSING), _LOG]},
+                                            teardown_suite=[_blk_late(_EXC)])]))
+SAVE_MISSING_IN_TEST_HOOKS_AND_FIXTURE = _c1(_p([_s("s0", [_t("t0", ["f0"], [_LOG]), _t("t1", script=[_LOG], rank=2)],
+                                                      teardown_test=[dict(_SAVE_MISSING)])],
+                                                  [_f("f0", "test", [_blk_late(_EXC), _LOG], teardown=[_LOG])]), n=2)
+UNWRITTEN_BLOCK_RAISES_IN_THREAD = _c1(_p([_s("s0", [_t("t0", script=[{"a": "thread", "script": [_LOG, _blk_late(_EXC), _LOG]}, _LOG]),
+                                                      _t("t1", script=[{"a": "thread", "script": [dict(_SAVE_MISSING)]}], rank=2)])]))
+# Abort* classes leaving an unwritten block
+UNWRITTEN_BLOCK_ABORTS = _c1(_p([_s("s0", [_t("t0", script=[_blk_late({"a": "raise", "kind": "AbortTest"}), _LOG]),
+                                            _t("t1", script=[_blk_late(_blk_late({"a": "raise", "kind": "AbortSuite"}))], rank=2),
+                                            _t("t2", script=[_LOG], rank=3)])]))
+UNWRITTEN_ATTACHMENTS = [UNWRITTEN_BLOCK_RAISES_IN_BODY, SAVE_MISSING_IN_BODY, SAVE_MISSING_IN_SETUP_SUITE, SAVE_MISSING_IN_TEST_HOOKS_AND_FIXTURE,
+                         UNWRITTEN_BLOCK_RAISES_IN_THREAD, UNWRITTEN_BLOCK_ABORTS]
